@@ -489,8 +489,11 @@ Proof. exact arg_index_sites_owned. Qed.
 Print Assumptions c04_arg_index_sites_owned.
 
 (* the same for constant indexes into other slices (words[0], states[0], possibilities[0], ...) of builtin.go and
-   tests.go: the len guards around each site imply the index for every length (two sites justified by name) *)
-Theorem c04_local_index_sites_safe : forallb local_site_ok local_index_sites = true.
+   tests.go: the len guards around each site imply the index for every length (two sites justified by name: exactly the site
+   X[0] of each name, and exactly one such site each; any other index or a slice of those names is checked like the
+   rest, Example exemption_is_pinned) *)
+Theorem c04_local_index_sites_safe :
+  forallb local_site_ok local_index_sites = true /\ local_sites_exempt_once local_index_sites = true.
 Proof. exact local_index_sites_safe. Qed.
 Print Assumptions c04_local_index_sites_safe.
 
@@ -515,7 +518,8 @@ Print Assumptions c04_base_arity_checks_as_model.
 
 Theorem c04_operator_guards_in_source :
   max_number_exponent_src = max_number_exponent /\ max_text_length_src = max_text_length
-  /\ max_render_size_src = max_render_size /\ forallb snd operator_guards = true
+  /\ max_render_size_src = max_render_size /\ max_repeat_length_src = max_repeat_length
+  /\ forallb snd operator_guards = true
   /\ List.length operator_guards = 11%nat.
 Proof. exact operator_guards_in_source. Qed.
 Print Assumptions c04_operator_guards_in_source.
